@@ -39,7 +39,7 @@ const c01Extra = 3
 
 type c01Job struct {
 	Scn     string
-	Variant string      // "outsider" | "witness-on" | "wipe-jobs" | "restart" | "index-lag" | "seam" | "probe"
+	Variant string      // "outsider" | "witness-on" | "wipe-jobs" | "restart" | "index-lag" | "mempool" | "seam" | "probe"
 	K       int         // wipe-jobs: after this block index
 	Plan    map[int]int // seam: occurrence -> alternative
 }
@@ -131,6 +131,13 @@ func c01Exec(j c01Job) c01Res {
 		res := lead.ExecBlock(req, false, nil)
 		if lead.Dead {
 			return c01Res{Err: fmt.Sprintf("lead panicked in block %d", i+1)}
+		}
+		if j.Variant == "mempool" {
+			// the second replica is a node whose mempool saw the block's transactions before the block arrived
+			// (gossip); the first one replays blocks without any mempool traffic (a syncing node)
+			for _, tx := range req.Txs {
+				fol.CheckTx(tx)
+			}
 		}
 		fres := fol.ExecBlock(req, false, nil)
 		out.Blocks++
@@ -329,8 +336,8 @@ func c01(args []string) int {
 		if err != nil {
 			continue
 		}
-		list = append(list, c01Job{Scn: id, Variant: "outsider"}, c01Job{Scn: id, Variant: "witness-on"}, c01Job{Scn: id, Variant: "index-lag"})
-		cfgRuns += 3
+		list = append(list, c01Job{Scn: id, Variant: "outsider"}, c01Job{Scn: id, Variant: "witness-on"}, c01Job{Scn: id, Variant: "index-lag"}, c01Job{Scn: id, Variant: "mempool"})
+		cfgRuns += 4
 		for k := 0; k < len(h.Blocks)-c01Extra; k++ {
 			list = append(list, c01Job{Scn: id, Variant: "wipe-jobs", K: k}, c01Job{Scn: id, Variant: "restart", K: k})
 			cfgRuns += 2
